@@ -448,6 +448,8 @@ func TestVP_C09_finalization(t *testing.T) {
 					if bits.OnesCount64(s.Signature.Mask) == T {
 						classes = append(classes, "exact-threshold")
 					}
+				} else if s.Timestamp < h.Epoch {
+					classes = append(classes, "before-epoch-rejected")
 				} else if bits.OnesCount64(s.Signature.Mask) < T {
 					classes = append(classes, "honest-below-threshold")
 				} else {
